@@ -278,3 +278,111 @@ Proof.
   - split; [apply w_no_dangling|]. split; [vm_compute; reflexivity|]. split; [vm_compute; reflexivity|].
     split; [vm_compute; reflexivity|]. split; [vm_compute; discriminate|]. vm_compute. reflexivity.
 Qed.
+
+(* ================================================================================================
+   Targets.  "Every declaration and tag that was not the target of the interrupted command is reported
+   exactly as before": whatever the completed command leaves as it was is as it was at every crash point
+   (all commands); and for an undeclare the completed command changes exactly the declaration it names and
+   the tags that point at that version for that flavor - the entries other flavors have in the same chain
+   files stay, whichever versions they point at (chain files re-pointed per flavor).
+   ================================================================================================ *)
+From Eupsv Require Import Proofs.CrashDbTarget.
+
+Theorem crash_untouched_by_command_is_untouched f d o es k d' : crash_point f d o es k d' ->
+  (forall s n v fl, a_decl (view (apply es d)) s n v fl = a_decl (view d) s n v fl ->
+                    a_decl (view d') s n v fl = a_decl (view d) s n v fl) /\
+  (forall s n t fl, a_tag (view (apply es d)) s n t fl = a_tag (view d) s n t fl ->
+                    a_tag (view d') s n t fl = a_tag (view d) s n t fl).
+Proof. intro C. split; [exact (crash_unchanged_decl f d o es k d' C)|exact (crash_unchanged_tag f d o es k d' C)]. Qed.
+Print Assumptions crash_untouched_by_command_is_untouched.
+
+(* undeclare n v for flavor fl, found in stack s0: every other declaration - other versions of n, other flavors of
+   n v, other products - and every tag assignment that is not (s0, n, fl) pointing at v reads exactly as before at
+   every crash point (k = all system calls: after the completed command) *)
+Theorem crash_undeclare_frame f d o n vo es k d' s0 v0 :
+  crash_point f d (Undeclare o n vo) es k d' -> undeclare_target (view d) o n vo = Ok (s0, v0) ->
+  (forall s n' x fl, (s, n', x, fl) <> (s0, n, v0, o_flavor o) ->
+     a_decl (view d') s n' x fl = a_decl (view d) s n' x fl) /\
+  (forall s n' t fl, (s, n', fl) <> (s0, n, o_flavor o) \/ a_tag (view d) s n' t fl <> Some v0 ->
+     a_tag (view d') s n' t fl = a_tag (view d) s n' t fl).
+Proof. exact (crash_undeclare_frame_gen f d o n vo es k d' s0 v0). Qed.
+Print Assumptions crash_undeclare_frame.
+
+(* non-vacuity on the shape the quantifier names: a 1 (Linux64) and a 2 (Darwin) both carry current and stable, so
+   each chain file holds two flavors pointing at different versions; undeclare a 1 (Linux64) is four file effects
+   (rewrite current.chain, rewrite stable.chain, remove 1.version, a refused rmdir), twelve system calls; at each of
+   the thirteen crash points the Darwin tags and declaration read as before, and at the end the target is gone *)
+Example c08_split_chains_inhabited :
+  let es := op_effects x_d x_undeclare in
+  let seen k := view (read_raw (map fst x_d) (crash_fs x_f es k)) in
+  undeclare_target (view x_d) (w_o w_L) (lit "a") (Some (lit "1")) = Ok (lit "stack", lit "1") /\
+  length es = 4 /\ length (lower_all lower_atomic (images es)) = 12 /\
+  crash_point x_f x_d x_undeclare es 5 (read_raw (map fst x_d) (crash_fs x_f es 5)) /\
+  forallb (fun k => opt_str_eqb (a_tag (seen k) (lit "stack") (lit "a") (lit "current") w_D) (lit "2") &&
+                    opt_str_eqb (a_tag (seen k) (lit "stack") (lit "a") (lit "stable") w_D) (lit "2") &&
+                    is_some (a_decl (seen k) (lit "stack") (lit "a") (lit "2") w_D))
+          (seq 0 13) = true /\
+  a_tag (seen 5) (lit "stack") (lit "a") (lit "current") w_L = None /\
+  a_tag (seen 5) (lit "stack") (lit "a") (lit "stable") w_L = Some (lit "1") /\
+  a_decl (seen 12) (lit "stack") (lit "a") (lit "1") w_L = None.
+Proof.
+  cbv zeta. split; [vm_compute; reflexivity|]. split; [vm_compute; reflexivity|]. split; [vm_compute; reflexivity|].
+  split; [constructor; [apply x_represents|reflexivity|vm_compute; reflexivity|vm_compute; reflexivity]|].
+  split; [vm_compute; reflexivity|]. split; [vm_compute; reflexivity|]. split; vm_compute; reflexivity.
+Qed.
+
+(* ================================================================================================
+   The atomic-write helper (utils.AtomicFile, used by ProductStack.persist for the cache every mutating
+   command rewrites last) and file-system boundaries (Model/CrashXdev.v).  With the temporary file on the
+   target's file system the installation is one rename: the helper is the protocol of the generic layer, the
+   cache reads old or new at every crash point and nothing else changes.  With the temporary elsewhere
+   (TMPDIR on another mount) an installer that falls back to copying truncates the target first.
+   ================================================================================================ *)
+From Eupsv Require Import Model.CrashXdev Proofs.CrashXdev.
+
+Theorem atomic_helper_same_fs_old_or_new f p c k : clean f -> is_tmp p = false ->
+  alookup p (crash_state (lower_atomic_at SameFs) f [EWrite p c] k) = alookup p f \/
+  alookup p (crash_state (lower_atomic_at SameFs) f [EWrite p c] k) = Some (File c).
+Proof. exact (same_fs_old_or_new f p c k). Qed.
+Print Assumptions atomic_helper_same_fs_old_or_new.
+
+Theorem atomic_helper_same_fs_frame f p c k q : clean f -> is_tmp p = false -> is_tmp q = false -> q <> p ->
+  alookup q (crash_state (lower_atomic_at SameFs) f [EWrite p c] k) = alookup q f.
+Proof. exact (same_fs_others_untouched f p c k q). Qed.
+Print Assumptions atomic_helper_same_fs_frame.
+
+(* so a loader of the cache never meets an empty file it did not meet before the command *)
+Theorem atomic_helper_same_fs_loader f p c k : clean f -> is_tmp p = false -> c <> [] ->
+  load_cache (alookup p f) <> Err Crash ->
+  load_cache (alookup p (crash_state (lower_atomic_at SameFs) f [EWrite p c] k)) <> Err Crash.
+Proof.
+  intros Hc Hp Hn Ho. destruct (same_fs_old_or_new f p c k Hc Hp) as [E|E]; rewrite E; [exact Ho|].
+  destruct c; [congruence|discriminate].
+Qed.
+Print Assumptions atomic_helper_same_fs_loader.
+
+(* what a trace shows on the target name (compared with the traces of the real helper by the harness) *)
+Theorem atomic_helper_target_sees_one_rename p c : is_tmp p = false -> target_kinds SameFs (EWrite p c) = [KRename].
+Proof. exact (target_kinds_same_fs p c). Qed.
+Print Assumptions atomic_helper_target_sees_one_rename.
+
+(* across a file-system boundary, installing by copy: once the temporary file is complete and the target has been
+   opened, the target is empty whatever it held, and the loader raises - neither old nor new *)
+Theorem install_by_copy_is_not_atomic f p c :
+  alookup p (crash_state (lower_atomic_at OtherFs) f [EWrite p c] (length c + 3)) = Some (File []) /\
+  load_cache (alookup p (crash_state (lower_atomic_at OtherFs) f [EWrite p c] (length c + 3))) = Err Crash /\
+  (is_tmp p = false -> target_kinds OtherFs (EWrite p c) = KOpen :: map (fun _ => KWrite) c ++ [KClose]).
+Proof.
+  split; [apply other_fs_truncates|]. split; [apply other_fs_loader_raises|]. apply target_kinds_other_fs.
+Qed.
+Print Assumptions install_by_copy_is_not_atomic.
+
+Example c08_cache_helper_inhabited :
+  let p := lit "ups_db/Linux64.pickleDB1_3_0" in
+  let f := [(p, File [lit "old"])] in
+  map (fun k => alookup p (crash_state (lower_atomic_at SameFs) f [EWrite p [lit "new"]] k)) [0; 1; 2; 3; 4] =
+    [Some (File [lit "old"]); Some (File [lit "old"]); Some (File [lit "old"]); Some (File [lit "old"]);
+     Some (File [lit "new"])] /\
+  map (fun k => alookup p (crash_state (lower_atomic_at OtherFs) f [EWrite p [lit "new"]] k)) [3; 4; 5; 6; 7] =
+    [Some (File [lit "old"]); Some (File []); Some (File [lit "new"]); Some (File [lit "new"]); Some (File [lit "new"])].
+Proof. vm_compute. split; reflexivity. Qed.
